@@ -162,7 +162,7 @@ VERUS_UNITS = {
     },
     'world_reactors': {
         'template': 'world_reactors.rs.tpl',
-        'owners': [(r'Reactor::(add|add_starting_triggers)$', ['C16', 'C07']), (r'Reactor::(remove|run)$', ['C16', 'C06']), (r'EntityReactor::add$', ['C16', 'C07']), (r'EntityReactor::(remove|system)$', ['C16', 'C06']), (r'EntityWorldLocal::new$', ['C16']), (r'cleanup_(reactor_data|find|find_pred)$', ['C16'])],
+        'owners': [(r'Reactor::(add|add_starting_triggers)$', ['C16', 'C07']), (r'Reactor::(remove|run)$', ['C16', 'C06']), (r'EntityReactor::add$', ['C16', 'C07']), (r'EntityReactor::(remove|system)$', ['C16', 'C06']), (r'EntityWorldLocal::new$', ['C16']), (r'cleanup_(reactor_data|find|find_pred)$', ['C16']), (r'add_world_reactor(_sys)?$', ['C16'])],
         'negctl': [
             ('sys: self.inner->Some_0.sys_command, mode: ReactorMode::Persistent }),', 'sys: self.inner->Some_0.sys_command, mode: ReactorMode::Cleanup }),', 'EntityReactor::add'),
         ],
@@ -351,7 +351,7 @@ PROPS = {
         note=ENVNOTE + '; threads not verified; termination of the collection loop not verified; channel receiver modelled with &mut access (unit gc)',
         explanation='exact reference count up to the despawn request (Kani, real Arc, <=3 clones; lemma L4); one collection drains all requests and removes every requested entity (Verus, unbounded); concurrency assumed'),
     'C16': dict(category='other', design_ref='DESIGN.md 5/C16 + 9.5',
-        text='Function-level contracts: EntityLocal::{entity,get,get_mut} expose exactly the entity that caused the run and the local data attached to it, writes land on that data, and every accessor panics outside a run of the reactor\'s own system (Kani, loop-free, value symbolic); the run\'s source comes from EntityReactionAccessTracker whose start claims the oldest entry parked for that system (Verus, verbatim, any length; Kani K.tracker.entity restates it for lists L<=3/5; lemma L1); cleanup_reactor_data(id, e) removes the local data iff e\'s registration list holds no entry of reactor id any more and leaves entities without list alone, for lists of ANY length (Verus, verbatim, `find` closure lifted by extraction rule 23; restated by Kani on the compiled code for lists L<=2, all contents); EntityReactors::{insert,remove,iter_reactors} (Kani); ReactorType::get_entity and ReactorMode::prepare (a world reactor is Persistent => never ref-counted => never collected) (Verus, verbatim). Verus (verbatim, generic in the reactor type): Reactor::{add,add_starting_triggers,remove,run} and EntityReactor::{add,remove,system} queue exactly a PERSISTENT registration / a revocation for THE system command held by the reactor\'s resource (no system is spawned, despawned or duplicated), EntityReactor::add attaches the local data first and does nothing for a missing entity, EntityReactor::remove queues one local-data cleanup per unique entity of the removed bundle. Not covered: RevokeToken::iter_unique_entities itself (assumed), and "as last modified by earlier runs" across trees (runner).',
+        text='Function-level contracts: EntityLocal::{entity,get,get_mut} expose exactly the entity that caused the run and the local data attached to it, writes land on that data, and every accessor panics outside a run of the reactor\'s own system (Kani, loop-free, value symbolic); the run\'s source comes from EntityReactionAccessTracker whose start claims the oldest entry parked for that system (Verus, verbatim, any length; Kani K.tracker.entity restates it for lists L<=3/5; lemma L1); cleanup_reactor_data(id, e) removes the local data iff e\'s registration list holds no entry of reactor id any more and leaves entities without list alone, for lists of ANY length (Verus, verbatim, `find` closure lifted by extraction rule 23; restated by Kani on the compiled code for lists L<=2, all contents); EntityReactors::{insert,remove,iter_reactors} (Kani); ReactorType::get_entity and ReactorMode::prepare (a world reactor is Persistent => never ref-counted => never collected) (Verus, verbatim). Verus (verbatim, generic in the reactor type): Reactor::{add,add_starting_triggers,remove,run} and EntityReactor::{add,remove,system} queue exactly a PERSISTENT registration / a revocation for THE system command held by the reactor\'s resource (no system is spawned, despawned or duplicated), EntityReactor::add attaches the local data first and does nothing for a missing entity, EntityReactor::remove queues one local-data cleanup per unique entity of the removed bundle. EntityCommands::add_world_reactor (extensions.rs) queues ONE call of a system that does exactly EntityReactor::add(this entity, data) - nothing conditional, nothing else (Verus; the trait-impl method emitted as a free function, its system closure lifted: extraction rules 27/28). Not covered: RevokeToken::iter_unique_entities itself (assumed), the App-level wrappers (add_world_reactor on App, add_entity_reactor), and "as last modified by earlier runs" across trees (runner).',
         note=ENVNOTE + '; Query::verif_single stands for a query over one entity',
         explanation='add/remove command contracts proved (Verus, generic); EntityLocal exposure and cleanup_reactor_data bounded/complete@shape (Kani); runner not covered'),
     'C12': dict(category='other', design_ref='DESIGN.md 5/C12',
